@@ -953,6 +953,13 @@ def _is_last_entry(f, sub, load):
     load is outside every loop and precedes every other write of i."""
     idx = X.strip(sub.children[1])
     v = None
+    if idx.k == "BinaryOperator" and idx.op == "-" and X.const_int(idx.children[1]) == 1:
+        # array_peek(A): A.items[A.count - 1]
+        c_ = X.strip(idx.children[0])
+        if c_.k == "MemberExpr" and c_.name == "count":
+            norm = lambda t: t.replace("(", "").replace(")", "").replace(" ", "")
+            if norm(X.show(c_.children[0])) == norm(X.show(sub.children[0])).replace(".items", "").replace("->items", ""):
+                return True
     if idx.k == "UnaryOperator" and idx.op == "--" and not idx.d.get("postfix"):
         v = X.strip(idx.children[0])
     elif idx.k == "BinaryOperator" and idx.op == "-" and X.const_int(idx.children[1]) == 1:
